@@ -5,14 +5,15 @@
 set -u
 ID=$1; shift
 UP=$(echo "$ID" | tr a-z A-Z)
-SRC=/tmp/seed/$ID
-DST=/verif/seeded/$UP
+SRC=${SEEDROOT:-/tmp/seed}/$ID
+DST=/verif/seeded/$UP${SUFFIX:-}
 export GOFLAGS=-mod=mod GOPROXY=off GOSUMDB=off GOTOOLCHAIN=local
 mkdir -p "$DST"
 cp "$SRC/patch.diff" "$DST/patch.diff" || exit 2
 rm -rf "$DST/demo"; cp -r "$SRC/demo" "$DST/demo"; rm -f "$DST"/demo/*.txt
 [ -f "$SRC/NOTES.md" ] && cp "$SRC/NOTES.md" "$DST/NOTES.md"
 CHECKS="${*:-$UP}"
+PROP=$UP
 # 1. demo without / with the change, in a scratch worktree of /repo HEAD
 W=$(mktemp -d /tmp/sv-XXXXXX); rmdir "$W"
 git -C /repo worktree add -q --detach "$W" HEAD || exit 2
@@ -37,7 +38,7 @@ for c in $CHECKS; do
   echo "check $c: rc=$rc violations=$n :: $first"
   RES="$RES{\"check\":\"$c\",\"rc\":$rc,\"violation_lines\":$n,\"first\":$(python3 -c 'import json,sys; print(json.dumps(sys.argv[1]))' "$first")},"
 done
-python3 - "$DST" "$UP" "$RC_WITHOUT" "$RC_WITH" "$BASE" "[${RES%,}]" <<'PY'
+python3 - "$DST" "$PROP" "$RC_WITHOUT" "$RC_WITH" "$BASE" "[${RES%,}]" <<'PY'
 import json,sys,os
 dst,up,rw,rc,base,res=sys.argv[1:7]
 meta={}
